@@ -13,6 +13,8 @@
    - unlocked_refuted: the same world and requests WITHOUT the lock, schedule
      look-up 0, look-up 1, rest 0, rest 1: both are between look-up and rest
      at once, two IDs are drawn, the goroutines report different IDs.
+   - state_hyps_cache_ex, locked_cache_ex, locked_cache_reports_ex,
+     unlocked_cache_reports_ex (end of the file): the same with a cache of 10.
    - inadmissible_refuted: WITH the lock but along a run that violates C13's
      proviso (a purge drops a held entry as stale: C13_needs_hold_bound_refuted),
      two goroutines hold the key, and again two IDs are drawn. *)
@@ -24,18 +26,24 @@ From Sessions Require Import Model.Sess Model.Hist Proofs.SessDefs
 From Sessions Require Proofs.RotateLaws2 Proofs.RotateLaws3 Proofs.StartLaws4 Proofs.C01Spec.
 From Coq Require Import Lia.
 
-Lemma cadmb_run_sound locked k reqs : forall ls cs,
-  cadmb_run locked k reqs cs ls = true -> cadm_run locked k reqs cs ls.
+Lemma cadmb_run_sound locked reqs : forall ls cs,
+  cadmb_run locked reqs cs ls = true -> cadm_run locked reqs cs ls.
 Proof.
   induction ls as [|l ls IH]; intros cs H; cbn [cadmb_run cadm_run] in *; [exact Logic.I|].
   apply andb_true_iff in H as [H1 H2]. split.
   - destruct l; cbn [cadmb cadm] in *; try exact Logic.I. apply admb_adm. exact H1.
-  - destruct (cstep locked k reqs cs l); [apply IH; exact H2 | exact Logic.I].
+  - destruct (cstep locked reqs cs l); [apply IH; exact H2 | exact Logic.I].
 Qed.
 
 Definition wK : world := reach (cM 0) preE.
 Definition reqsK : list reqstep :=
   [rqE 1 (PForge (CKey kE)) 5; rqE 1 (PForge (CKey kE)) 6; rqE 2 (PForge (CKey kE)) 9].
+
+(* the lock key of the presented ID *)
+Definition kkE : nat := key_code kE.
+
+Lemma reqsK_plain : Forall (plain_on kkE) reqsK.
+Proof. repeat constructor; exists kE; split; reflexivity. Qed.
 
 Lemma wK_LI : LI (w_st wK).
 Proof. apply LI_reach'; repeat constructor. Qed.
@@ -74,12 +82,12 @@ Definition runK : list clabel :=
    CLook 0; CRest 0; CL (LLeave 0); CL (LRelease 0); CL (LMgrGet false)].
 
 Definition csK : cstate :=
-  match crun true 0 reqsK (cinit 0 reqsK wK 0) runK with Some cs => cs | None => cinit 0 reqsK wK 0 end.
+  match crun true reqsK (cinit kkE reqsK wK 0) runK with Some cs => cs | None => cinit kkE reqsK wK 0 end.
 
 Example locked_ex :
-  CI0 0 reqsK wK (cinit 0 reqsK wK 0) /\
-  crun true 0 reqsK (cinit 0 reqsK wK 0) runK = Some csK /\
-  cadm_run true 0 reqsK (cinit 0 reqsK wK 0) runK /\
+  CI0 kkE reqsK wK (cinit kkE reqsK wK 0) /\
+  crun true reqsK (cinit kkE reqsK wK 0) runK = Some csK /\
+  cadm_run true reqsK (cinit kkE reqsK wK 0) runK /\
   c_acts csK = [AReq 0; ATick 1000000000; ATick 0; AReq 2; ATick 1500000000; AReq 1] /\
   request_first (c_acts csK) /\ Forall tick_nonneg (c_acts csK) /\
   (ticks (c_acts csK) < c_grace (conf (w_st wK)))%Z /\
@@ -88,7 +96,7 @@ Example locked_ex :
      sat_add (c_idexpiry (conf (w_st wK))) (c_grace (conf (w_st wK))))%Z /\
   all_done csK = true.
 Proof.
-  split; [apply cinit_ci0|]. split; [vm_compute; reflexivity|].
+  split; [apply cinit_ci0; exact reqsK_plain|]. split; [vm_compute; reflexivity|].
   split; [apply cadmb_run_sound; vm_compute; reflexivity|].
   assert (E : c_acts csK = [AReq 0; ATick 1000000000; ATick 0; AReq 2; ATick 1500000000; AReq 1])
     by (vm_compute; reflexivity).
@@ -112,15 +120,15 @@ Proof. vm_compute. repeat split. Qed.
 (* a state of that run in which goroutine 1 is between look-up and rest while
    2 and 0 wait for the lock *)
 Example locked_mid_ex :
-  exists cs, crun true 0 reqsK (cinit 0 reqsK wK 0) (firstn 14 runK) = Some cs /\
+  exists cs, crun true reqsK (cinit kkE reqsK wK 0) (firstn 14 runK) = Some cs /\
     map is_looked (c_ph cs) = [false; true; false] /\
-    holds_key (c_lock cs) 1 0 = true /\ cA (c_lock cs) 0 = 2.
+    holds_key (c_lock cs) 1 kkE = true /\ cA (c_lock cs) kkE = 2.
 Proof. eexists. split; [vm_compute; reflexivity|]. vm_compute. repeat split. Qed.
 
 (* ---- without the lock ---- *)
 Definition runU : list clabel := [CLook 0; CLook 1; CRest 0; CRest 1].
 Definition csU : cstate :=
-  match crun false 0 reqsK (cinit 0 reqsK wK 0) runU with Some cs => cs | None => cinit 0 reqsK wK 0 end.
+  match crun false reqsK (cinit kkE reqsK wK 0) runU with Some cs => cs | None => cinit kkE reqsK wK 0 end.
 
 Theorem unlocked_refuted :
   exists reqs k rc w ls cs mid,
@@ -131,10 +139,10 @@ Theorem unlocked_refuted :
     (since (r_access rc) (now (w_st w)) < c_expiry (conf (w_st w)))%Z /\
     Forall (acc_req k rc (conf (w_st w))) reqs /\
     (* a run of the system without the lock, the clock frozen *)
-    crun false 0 reqs (cinit 0 reqs w 0) ls = Some cs /\
+    crun false reqs (cinit (key_code k) reqs w 0) ls = Some cs /\
     request_first (c_acts cs) /\ ticks (c_acts cs) = 0%Z /\
     (* two goroutines between look-up and rest at once *)
-    crun false 0 reqs (cinit 0 reqs w 0) (firstn 2 ls) = Some mid /\
+    crun false reqs (cinit (key_code k) reqs w 0) (firstn 2 ls) = Some mid /\
     is_looked (nth 0 (c_ph mid) PIdle) = true /\ is_looked (nth 1 (c_ph mid) PIdle) = true /\
     (* two IDs drawn, two different sessions reported *)
     let n := supply (w_st w) in
@@ -164,13 +172,19 @@ Example unlocked_reports_ex :
 Proof. vm_compute. repeat split. Qed.
 
 (* ---- with the lock, but along a run that breaks C13's proviso ---- *)
-Definition runI : list clabel := map CL refute_run ++ [CLook 0; CLook 2; CRest 0; CRest 2].
+Definition runI : list clabel :=
+  map CL
+    [LStart 0; LAcquire 0; LMgrGet false; LGet 0 false; LGrant 0;        (* g0 holds the key *)
+     LStart 1; LAcquire 1; LMgrGet false; LGet 1 false;                 (* g1 waits *)
+     LPurgeReq; LPurge [(kkE, true, false)];                            (* entry dropped as stale *)
+     LStart 2; LAcquire 2; LMgrGet false; LGet 2 false; LGrant 2]       (* g2 is let in *)
+  ++ [CLook 0; CLook 2; CRest 0; CRest 2].
 Definition csI : cstate :=
-  match crun true 0 reqsK (cinit 0 reqsK wK 1) runI with Some cs => cs | None => cinit 0 reqsK wK 1 end.
+  match crun true reqsK (cinit kkE reqsK wK 1) runI with Some cs => cs | None => cinit kkE reqsK wK 1 end.
 
 Theorem inadmissible_refuted :
-  crun true 0 reqsK (cinit 0 reqsK wK 1) runI = Some csI /\
-  cadmb_run true 0 reqsK (cinit 0 reqsK wK 1) runI = false /\
+  crun true reqsK (cinit kkE reqsK wK 1) runI = Some csI /\
+  cadmb_run true reqsK (cinit kkE reqsK wK 1) runI = false /\
   exists o0 o2,
     nth_error (c_ph csI) 0 = Some (PDone o0) /\ nth_error (c_ph csI) 2 = Some (PDone o2) /\
     ob_cookies o0 = [CkLive (KGen 2)] /\ ob_cookies o2 = [CkLive (KGen 3)] /\
@@ -184,17 +198,17 @@ Qed.
 (* ---- progress: from the state of locked_mid_ex a tick-free admissible run
    lets all three finish (an instance of c_completes, by its proof) ---- *)
 Example completes_ex :
-  exists cs, crun true 0 reqsK (cinit 0 reqsK wK 0) (firstn 14 runK) = Some cs /\
-    CI 0 reqsK wK cs /\ all_done cs = false /\
-    exists ls cs', crun true 0 reqsK cs ls = Some cs' /\ cadm_run true 0 reqsK cs ls /\
+  exists cs, crun true reqsK (cinit kkE reqsK wK 0) (firstn 14 runK) = Some cs /\
+    CI kkE reqsK wK cs /\ all_done cs = false /\
+    exists ls cs', crun true reqsK cs ls = Some cs' /\ cadm_run true reqsK cs ls /\
                    Forall no_tick ls /\ all_done cs' = true.
 Proof.
-  destruct (crun true 0 reqsK (cinit 0 reqsK wK 0) (firstn 14 runK)) as [cs|] eqn:E; [|vm_compute in E; discriminate].
+  destruct (crun true reqsK (cinit kkE reqsK wK 0) (firstn 14 runK)) as [cs|] eqn:E; [|vm_compute in E; discriminate].
   exists cs. split; [reflexivity|].
-  assert (HC : CI 0 reqsK wK cs).
-  { eapply ci_run; [apply ci0_ci; apply cinit_ci0 | exact E|].
+  assert (HC : CI kkE reqsK wK cs).
+  { eapply ci_run; [apply ci0_ci; apply cinit_ci0; exact reqsK_plain | exact E|].
     apply cadmb_run_sound. vm_compute. reflexivity. }
-  split; [exact HC|]. split; [|apply (c_completes 0 reqsK wK cs HC)].
+  split; [exact HC|]. split; [|apply (c_completes kkE reqsK wK cs HC)].
   vm_compute in E. injection E as <-. vm_compute. reflexivity.
 Qed.
 
@@ -204,12 +218,12 @@ Qed.
 Definition preK : list clabel := CTick 500000000 :: firstn 13 runK.
 Definition postK : list clabel := skipn 13 runK.
 Definition csK1 : cstate :=
-  match crun true 0 reqsK (cinit 0 reqsK wK 0) preK with Some cs => cs | None => cinit 0 reqsK wK 0 end.
+  match crun true reqsK (cinit kkE reqsK wK 0) preK with Some cs => cs | None => cinit kkE reqsK wK 0 end.
 
 Example any_start_ex :
-  crun true 0 reqsK (cinit 0 reqsK wK 0) preK = Some csK1 /\
-  (exists cs, crun true 0 reqsK csK1 postK = Some cs /\ all_done cs = true) /\
-  cadm_run true 0 reqsK (cinit 0 reqsK wK 0) (preK ++ postK) /\
+  crun true reqsK (cinit kkE reqsK wK 0) preK = Some csK1 /\
+  (exists cs, crun true reqsK csK1 postK = Some cs /\ all_done cs = true) /\
+  cadm_run true reqsK (cinit kkE reqsK wK 0) (preK ++ postK) /\
   Forall StartConc6.pre_label preK /\ (exists post', postK = CLook 1 :: post') /\
   let w := world_of csK1 in
   now (w_st w) = (now (w_st wK) + 500000000)%Z /\
@@ -219,7 +233,10 @@ Example any_start_ex :
     (since (r_access rc) (now (w_st w)) < c_expiry (conf (w_st w)))%Z /\
     Forall (acc_req kE rc (conf (w_st w))) reqsK /\
     Forall tick_nonneg (rev (acts_of postK)) /\
-    (ticks (rev (acts_of postK)) < c_grace (conf (w_st w)))%Z.
+    (ticks (rev (acts_of postK)) < c_grace (conf (w_st w)))%Z /\
+    (ticks (rev (acts_of postK)) + StartLaws4.slack (conf (w_st w)) < c_expiry (conf (w_st w)))%Z /\
+    (ticks (rev (acts_of postK)) + StartLaws4.slack (conf (w_st w)) <
+       sat_add (c_idexpiry (conf (w_st w))) (c_grace (conf (w_st w))))%Z.
 Proof.
   split; [vm_compute; reflexivity|]. split; [eexists; split; vm_compute; reflexivity|].
   split; [apply cadmb_run_sound; vm_compute; reflexivity|].
@@ -230,8 +247,85 @@ Proof.
   split; [vm_compute; reflexivity|]. split; [reflexivity|].
   split; [vm_compute; discriminate|]. split; [vm_compute; reflexivity|]. split; [vm_compute; reflexivity|].
   split; [repeat constructor|].
-  split; [|vm_compute; reflexivity].
+  split; [|split; [|split]; vm_compute; reflexivity].
   assert (E : rev (acts_of postK) = [AReq 0; ATick 1000000000; ATick 0; AReq 2; ATick 1500000000; AReq 1])
     by (vm_compute; reflexivity).
   rewrite E. repeat constructor; cbn [tick_nonneg]; lia.
 Qed.
+
+(* ---- the same with the local cache on (cache of 10 entries) ----
+   The session is cached, so every look-up returns the SAME heap object.
+   Locked: as before, one draw, all three on KGen 2 (locked_cache_ex,
+   locked_cache_reports_ex). Unlocked, schedule look-up 0, look-up 1, rest 0,
+   rest 1: only ONE ID is drawn, because Start's age test belongs to the rest
+   and goroutine 1's rest reads the creation time from the shared object that
+   goroutine 0 has just rotated; what goes wrong instead is that goroutine 1,
+   holding the live object and not the replaced-ID record, is handed the
+   session under KGen 2 with NO cookie redirecting it (unlocked_cache_reports_ex;
+   the second effect described in seeded/C04-r2-3). To show a double mint with
+   the cache on the cut would have to lie between the age test and
+   RegenerateID, inside start_rest: the single cut made here is too coarse. *)
+Definition wC : world := reach (cM 10) preE.
+
+Lemma wC_LI : LI (w_st wC).
+Proof. apply LI_reach'; repeat constructor. Qed.
+
+Example state_hyps_cache_ex :
+  exists rc, LI (w_st wC) /\ L (w_st wC) kE = Some rc /\ r_ref rc = None /\
+    (c_idexpiry (conf (w_st wC)) <= since (r_created rc) (now (w_st wC)))%Z /\
+    (0 < c_grace (conf (w_st wC)))%Z /\
+    (since (r_access rc) (now (w_st wC)) < c_expiry (conf (w_st wC)))%Z /\
+    Forall (acc_req kE rc (conf (w_st wC))) reqsK /\ supply (w_st wC) = 2%N /\
+    c_maxcache (conf (w_st wC)) = 10%Z /\ map fst (cache (w_st wC)) = [kE].
+Proof.
+  eexists. split; [exact wC_LI|]. split; [vm_compute; reflexivity|]. split; [reflexivity|].
+  split; [vm_compute; discriminate|]. split; [vm_compute; reflexivity|]. split; [vm_compute; reflexivity|].
+  split; [repeat constructor|]. vm_compute. repeat split.
+Qed.
+
+Definition csC : cstate :=
+  match crun true reqsK (cinit kkE reqsK wC 0) runK with Some cs => cs | None => cinit kkE reqsK wC 0 end.
+
+Example locked_cache_ex :
+  CI0 kkE reqsK wC (cinit kkE reqsK wC 0) /\
+  crun true reqsK (cinit kkE reqsK wC 0) runK = Some csC /\
+  cadm_run true reqsK (cinit kkE reqsK wC 0) runK /\
+  c_acts csC = [AReq 0; ATick 1000000000; ATick 0; AReq 2; ATick 1500000000; AReq 1] /\
+  request_first (c_acts csC) /\ Forall tick_nonneg (c_acts csC) /\
+  (ticks (c_acts csC) < c_grace (conf (w_st wC)))%Z /\
+  (ticks (c_acts csC) + StartLaws4.slack (conf (w_st wC)) < c_expiry (conf (w_st wC)))%Z /\
+  (ticks (c_acts csC) + StartLaws4.slack (conf (w_st wC)) <
+     sat_add (c_idexpiry (conf (w_st wC))) (c_grace (conf (w_st wC))))%Z /\
+  all_done csC = true.
+Proof.
+  split; [apply cinit_ci0; exact reqsK_plain|]. split; [vm_compute; reflexivity|].
+  split; [apply cadmb_run_sound; vm_compute; reflexivity|].
+  assert (E : c_acts csC = [AReq 0; ATick 1000000000; ATick 0; AReq 2; ATick 1500000000; AReq 1])
+    by (vm_compute; reflexivity).
+  split; [exact E|]. rewrite E. split; [exact Logic.I|].
+  split; [repeat constructor; cbn [tick_nonneg]; lia|].
+  split; [vm_compute; reflexivity|]. split; [vm_compute; reflexivity|]. split; [vm_compute; reflexivity|].
+  vm_compute; reflexivity.
+Qed.
+
+Example locked_cache_reports_ex :
+  reports csC =
+    [Some (RSess, [CkLive (KGen 2)], Some (KGen 2, ([(1, 2)]%N, Some 7%N)), [], 3%N);
+     Some (RSess, [CkLive (KGen 2)], Some (KGen 2, ([(1, 2)]%N, Some 7%N)), [2%N], 3%N);
+     Some (RSess, [CkLive (KGen 2)], Some (KGen 2, ([(1, 2)]%N, Some 7%N)), [], 3%N)] /\
+  supply (c_st csC) = 3%N /\
+  map fst (snd (serial reqsK wC (c_acts csC))) = [0; 2; 1].
+Proof. vm_compute. repeat split. Qed.
+
+Definition csUC : cstate :=
+  match crun false reqsK (cinit kkE reqsK wC 0) runU with Some cs => cs | None => cinit kkE reqsK wC 0 end.
+
+Example unlocked_cache_reports_ex :
+  crun false reqsK (cinit kkE reqsK wC 0) runU = Some csUC /\
+  map (fun o => option_map (fun p => (ob_res p, ob_cookies p, option_map fst (ob_start p), ob_drawn p))
+                 (match o with PDone p => Some p | _ => None end)) (c_ph csUC) =
+    [Some (RSess, [CkLive (KGen 2)], Some (KGen 2), 3%N);
+     Some (RSess, [], Some (KGen 2), 3%N);
+     None] /\
+  supply (c_st csUC) = 3%N.
+Proof. split; [vm_compute; reflexivity|]. vm_compute. repeat split. Qed.
